@@ -320,7 +320,9 @@ func c19Case(c *vc.Ctx, idx int) {
 	record := func(kind string, data any) {
 		_ = os.WriteFile(lastInput, []byte(fmt.Sprintf("case %d height %d %s\n%x\n", idx, ch.Height+1, kind, data)), 0o644)
 	}
-	viol := func(sig, detail string, rep any) { c.Violation(sig, fmt.Sprintf("height %d: %s", ch.Height, detail), rep) }
+	viol := func(sig, detail string, rep any) {
+		c.Violation(sig, fmt.Sprintf("height %d: %s", ch.Height, detail), rep)
+	}
 	bm := newBridgeModel(c.Seed, w.BtcKey)
 	b0, err := ch.Step(world.StepOpts{Reqs: &world.Requests{Bridge: bridgeReqs(bm.withdrawRequests(12))}})
 	if err != nil {
